@@ -102,7 +102,9 @@ def interior(S, cfg):
     from dassh import region_rodded as RR
     n_ring = cfg['n_ring']
     adiabatic = cfg.get('adiabatic', False)
-    rr = make_rodded(S, n_ring=n_ring, n_duct=1)
+    # n_duct = 2: a flowing bypass takes its share of the assembly flow, so the bundle-interior flow (which the update
+    # divides by) differs from the assembly total
+    rr = make_rodded(S, n_ring=n_ring, n_duct=cfg.get('n_duct', 1))
     set_int_params(S, rr, conv_approx=cfg.get('conv_approx', False))
     set_temps(S, rr)
     nsc = rr.subchannel.n_sc['coolant']['total']
@@ -648,6 +650,8 @@ def configs(tier):
         out.append((interior, dict(n_ring=n)))
         out.append((interior, dict(n_ring=n, conv_approx=True)))
     out.append((interior, dict(n_ring=3, adiabatic=True)))
+    out.append((interior, dict(n_ring=2, n_duct=2)))
+    out.append((interior, dict(n_ring=3, n_duct=2, conv_approx=True)))
     for n in (2, 3, 4):
         out.append((bypass, dict(n_ring=n, n_duct=2)))
     out.append((bypass, dict(n_ring=3, n_duct=2, conv_approx=True)))
